@@ -202,12 +202,14 @@ class Buffer:
         self.tokens.extend(reversed(toks))
 
     #   skip space and comments (but not paragraphs)
-    #   - stop_at_lang: do not skip a language switch
+    #   - stop_at_lang: do not skip a language switch, and do not skip
+    #     beyond the end of an inserted macro argument
     #
     def skip_space(self, stop_at_lang=False):
         tok = self.cur()
         while self.is_space(tok):
-            if stop_at_lang and type(tok) is defs.LanguageToken:
+            if stop_at_lang and (type(tok) is defs.LanguageToken
+                    or type(tok) is defs.ActionToken and tok.arg_end):
                 break
             tok = self.next()
         return tok
